@@ -1,4 +1,6 @@
-"""C03 — closing and reopening reproduces the view; open modes (P-tier: _open order/modes/effects)."""
+"""C03 — closing and reopening reproduces the view; open modes (P-tier: _open order/modes/effects, __init__ mode table)."""
+from pyvc.api import SpecRegistry
+
 from . import hashing, record
 
 
@@ -6,4 +8,6 @@ def build(reg):
     record.add_record_bindings(reg)
     record.add_open_bindings(reg)
     specs = [reg.add(record.OpenRecord())]
-    return {"verify": specs, "lemmas": [], "trusted": hashing.TRUSTED + [record.T1_OPEN, record.T5_UB, "T4 list.sort(key) yields a permutation ascending in the key"], "assumptions": ["the view is a function of the files' content and their order only (IH5 nodes hold no other state): with the proved order-independence of _open any permutation of the file list gives the same record"]}
+    # the mode table is verified against call-logging stubs of _create/_open/create_patch: separate registry entries
+    specs.append(record.add_init_modes(reg))
+    return {"verify": specs, "lemmas": [], "trusted": hashing.TRUSTED + [record.T1_OPEN, record.T5_UB, "T4 list.sort(key) yields a permutation ascending in the key"], "assumptions": ["the view is a function of the files' content and their order only (IH5 nodes hold no other state): with the proved order-independence of _open any permutation of the file list gives the same record", "__init__ is verified against stubs that log which of find_files/_create/_open/create_patch are called; their own contracts are C02/C04 obligations"]}
